@@ -117,7 +117,7 @@ struct Grid<'a> {
     bias_hint: f64,
 }
 
-fn check_interval(ctx: &mut Ctx, rng: &mut Rng, gr: &Grid, k: i128) {
+fn check_interval(ctx: &mut Ctx, rng: &mut Rng, gr: &Grid, k: i128, excess_max: &mut f64) {
     let replay = |x: f64| json!({"kind":"quantise","field":gr.name,"k":k.to_string(),"x_bits":format!("{:016x}", x.to_bits())});
     let (a, b) = match (guard(|| (gr.g)(k)), guard(|| (gr.g)(k + 1))) {
         (Ok(Some(a)), Ok(Some(b))) => (a, b),
@@ -166,7 +166,9 @@ fn check_interval(ctx: &mut Ctx, rng: &mut Rng, gr: &Grid, k: i128) {
         let q = kk.abs() as f64;
         let slack = step * 4.0 * eps * q.max(1.0) + 4.0 * eps * (x.abs() + gr.bias_hint.abs() + step) + eps * d;
         let excess = d - step / 2.0;
-        ctx.max("excess_over_half_step_in_steps", excess / step);
+        if excess / step > *excess_max {
+            *excess_max = excess / step;
+        }
         if excess > slack {
             ctx.violation(
                 format!("C11.nearest|{}", gr.name),
@@ -322,9 +324,11 @@ pub fn run(p: &Params) -> Outcome {
         let mut rng = Rng::derive(seed, "C11", ji as u64);
         let gr = if fi < n_scaled { field_grid(&FIELDS[scaled[fi]]) } else { bias_grid([1059u16, 1065, 1230][fi - n_scaled]) };
         let ks = sample_ks(&mut rng, gr.kmin, gr.kmax, n_k / parts);
+        let mut excess_max = f64::NEG_INFINITY;
         for &k in &ks {
-            check_interval(ctx, &mut rng, &gr, k);
+            check_interval(ctx, &mut rng, &gr, k, &mut excess_max);
         }
+        ctx.max("excess_over_half_step_in_steps", excess_max);
         ctx.count_dyn_n(format!("intervals:{}", gr.name), ks.len() as u64);
         if part == 0 {
             ctx.count("scaled_fields");
@@ -358,7 +362,7 @@ pub fn replay(_p: &Params, v: &Value) -> Outcome {
     match gr {
         Some(gr) => {
             let mut rng = Rng::new(1);
-            check_interval(&mut ctx, &mut rng, &gr, k);
+            check_interval(&mut ctx, &mut rng, &gr, k, &mut f64::NEG_INFINITY.clone());
         }
         None => ctx.inconclusive("unknown field".into()),
     }
